@@ -38,7 +38,7 @@ ASSUMPTIONS = ["when a new-date notification must be sent is not stated by the p
                "episodes aborted by TrackRecord's duplicate-timestamp rejection (DESIGN 4.2-c) are judged on the delivered prefix"]
 REQUIRED = ["C04:exchange-exactly-once", "C04:delivery-sequence", "C04:second-observer", "C04:timestamps-nondecreasing", "C04:env-notification-stamp",
             "C04:clock-in-callback", "C04:rebalance-stamp", "C04:latency-refused"]
-REQUIRED_CATS = ["observer:inherited-callbacks", "second-env-same-transmitter", "events-added-on-empty-timesteps-then-second-env", "add_timesteps", "add_custom_events", "latency>0", "markov", "warmup", "late-fold", "episode-length", "event-after-grid", "event-before-grid",
+REQUIRED_CATS = ["grid-extended-then-second-env", "observer:inherited-callbacks", "second-env-same-transmitter", "events-added-on-empty-timesteps-then-second-env", "add_timesteps", "add_custom_events", "latency>0", "markov", "warmup", "late-fold", "episode-length", "event-after-grid", "event-before-grid",
                  "event-at-latency-bound"]
 REQUIRED_HITS = ["Broker.rebalance"]
 TECHNIQUE = "runtime monitoring: recording observer + hook markers compared with an independent delivery-schedule model"
@@ -194,6 +194,22 @@ def case(ctx, i, tier):
                 # a NEW environment on the SAME transmitter with a different latency (data loaded
                 # once, environment rebuilt): the latent split must follow the new latency
                 L = rng.choice(others)
+                after = [e for e in evs if T(e) > G[-1]]
+                if after and rng.random() < 0.6:
+                    # ... after the GRID was extended (add_timesteps) past its old end: events that were stamped
+                    # beyond the grid - loaded long ago, never deliverable so far - now have their timestep
+                    last_t = max(T(e) for e in after)
+                    new_pts = sorted({G[-1] + (last_t - G[-1]) * f for f in (0.5, 1.0)} | {last_t + timedelta(seconds=min(gaps))})
+                    new_pts = [x for x in new_pts if (x - G[-1]).total_seconds() > max(L, max(others)) + 1e-3]
+                    new_pts = [x for j_, x in enumerate(new_pts) if j_ == 0 or (x - new_pts[j_ - 1]).total_seconds() > max(L, max(others)) + 1e-3]
+                    if new_pts:
+                        tr.add_timesteps(list(reversed(new_pts)))
+                        G = G + new_pts
+                        folds["all"] = [datetime.min, datetime.max]
+                        order = {id(e): k for k, e in enumerate(evs)}
+                        live = [e for e in evs if slot(e) is not None and not (markov and T(e) < G[0])]
+                        live.sort(key=lambda e: (T(e), order[id(e)]))
+                        ctx.cat("grid-extended-then-second-env")
                 if holes and rng.random() < 0.7:
                     # ... after MORE events were loaded, on grid points that had none: the folds (already used by
                     # the first environment) gain steps
